@@ -286,30 +286,41 @@ func c05Enabled(c *Ctx) {
 				r.Bad("C05.enabled", key, p.Pos(ins.Pos()), "an entry is yielded without a dominating entry.KeyStatus() == keyset.Enabled on that entry")
 				return
 			}
-			// index loop 0..Len()-1
-			idx := ec.Call.Args[1]
-			phi, isPhi := guard.Strip(idx).(*ssa.Phi)
+			// index loop 0..Len()-1 (classic, or range over kh.Len())
 			loopOK := false
-			if isPhi {
-				start0, inc := false, false
-				for _, e := range phi.Edges {
-					if v, isC := guard.ConstInt(e); isC && v == 0 {
-						start0 = true
-					} else if b, isB := e.(*ssa.BinOp); isB && b.Op == token.ADD && b.X == ssa.Value(phi) {
-						if one, isC := guard.ConstInt(b.Y); isC && one == 1 {
-							inc = true
+			if cl := countedLoopOf(ec.Call.Args[1]); cl != nil {
+				if lc, _ := guard.CallOf(cl.Bound); lc != nil && guard.CalleeName(&lc.Call) == "(*"+core.ModPath+"/keyset.Handle).Len" {
+					// the only early exits: the consumer stopped (yield returned false) or the impossible-error panic
+					loopOK = true
+					for b := range cl.Blocks {
+						for _, sc := range b.Succs {
+							if cl.Blocks[sc] || len(sc.Instrs) == 0 {
+								continue
+							}
+							switch sc.Instrs[len(sc.Instrs)-1].(type) {
+							case *ssa.Panic:
+								continue
+							case *ssa.Return:
+								stopped := false
+								for _, fct := range guard.BlockFacts(sc) {
+									if yc, val, isB := guard.BoolCallFact(fct); isB && !val && yc == call {
+										stopped = true
+									}
+								}
+								if stopped {
+									continue
+								}
+							}
+							// the regular exit: the exhausted loop condition
+							if iff := lastIf(b); iff != nil {
+								if cmp, isB := iff.Cond.(*ssa.BinOp); isB && (cmp.Y == cl.Bound || cmp.X == cl.Bound) {
+									continue
+								}
+							}
+							loopOK = false
 						}
 					}
 				}
-				condOK := false
-				if iff, isIf := phi.Block().Instrs[len(phi.Block().Instrs)-1].(*ssa.If); isIf {
-					if cmp, isB := iff.Cond.(*ssa.BinOp); isB && cmp.Op == token.LSS && cmp.X == ssa.Value(phi) {
-						if lc, _ := guard.CallOf(cmp.Y); lc != nil && guard.CalleeName(&lc.Call) == "(*"+core.ModPath+"/keyset.Handle).Len" {
-							condOK = true
-						}
-					}
-				}
-				loopOK = start0 && inc && condOK
 			}
 			r.Check(loopOK, "C05.enabled", key, p.Pos(ins.Pos()), "the iterator does not visit every index 0..Len()-1", "dominated by KeyStatus()==Enabled of the same entry; i from 0 while i < kh.Len(), i++")
 		})
@@ -647,17 +658,40 @@ func c05Accept(c *Ctx) {
 			}
 			// lookup argument
 			if nme := guard.CalleeName(&call.Call); strings.Contains(nme, "internal/prefixmap.PrefixMap[") && strings.Contains(nme, ").PrimitivesMatchingPrefix") {
-				arg := guard.Strip(call.Call.Args[1])
-				okArg := false
-				if guard.IsNilConst(arg) {
-					okArg = true // prefix-less candidates only
+				var validKey func(arg ssa.Value, d int) bool
+				validKey = func(arg ssa.Value, d int) bool {
+					arg = guard.Strip(arg)
+					if guard.IsNilConst(arg) {
+						return true // prefix-less candidates only
+					}
+					if sl, isSl := arg.(*ssa.Slice); isSl && sl.Low == nil {
+						arg = guard.Strip(sl.X)
+					}
+					if prm, isP := arg.(*ssa.Parameter); isP && len(f.Params) > 1 && prm == f.Params[1] {
+						return true
+					}
+					if d < 2 {
+						// element of a local literal: for _, prefix := range [][]byte{input[:n], nil}
+						if elems, _, isLit := literalElements(arg); isLit && len(elems) > 0 {
+							for _, e := range elems {
+								if !validKey(e, d+1) {
+									return false
+								}
+							}
+							return true
+						}
+						if ph, isPhi := arg.(*ssa.Phi); isPhi {
+							for _, e := range ph.Edges {
+								if !validKey(e, d+1) {
+									return false
+								}
+							}
+							return true
+						}
+					}
+					return false
 				}
-				if sl, isSl := arg.(*ssa.Slice); isSl && sl.Low == nil {
-					arg = sl.X
-				}
-				if prm, isP := arg.(*ssa.Parameter); isP && len(f.Params) > 1 && prm == f.Params[1] {
-					okArg = true
-				}
+				okArg := validKey(call.Call.Args[1], 0)
 				r.Check(okArg, "C05.accept", fmt.Sprintf("C05.accept/%s/lookup key", fid), p.Pos(ins.Pos()),
 					"candidates are looked up under something other than the (leading bytes of the) input", "PrimitivesMatchingPrefix(input) / input[:n] / nil")
 			}
